@@ -134,3 +134,25 @@ def c19(ctx):
                     trace_module="Trace_C19", sigfn=c19_sig,
                     assumptions=["TLC/SANY and the JVM", "SegRules!RuleTable is the library's closing-rule table at the pinned commit (transcribed once)",
                                  "descriptor field values are logged from the real getters (their decoding is C08/C09's subject)"])
+
+
+# ---------------------------------------------------------------- C20
+
+@prop("C20", "Trace_C20")
+def c20(ctx):
+    V.mc(ctx, "MC_C20", workers=4)
+    tab = os.path.join(ctx.dir, "c20.tab.ndjson")
+    V.tlc_emit(ctx, "Gen_C20", tab)
+    V.table_compare(ctx, tab)
+    ctx.exhaustive = True
+    summ = V.gen_traces(ctx, shards=8)
+    V.validate(ctx, "Trace_C20", summ, V.default_sig)
+    return V.finish(ctx, "model_checking",
+                    rule="B1 (exhaustive): TLC emits the predicate table of all 256 stream types and the dvhe.PP.LL string for profile 0..127 x level 0..31; "
+                         "compared on LookupPmtStreamType / NewPmtElementaryStream / DecodeDolbyVisionCodec. B3: all 256 descriptor tags x bodies of length 0..8 "
+                         "(well-formed minimum length for the decoded kinds, boundary and random contents, single-bit bitrates) through every decoder, and PMTs carrying "
+                         "all 256 stream types queried by PID; validated by TLC against PmtTypes. class = (decoded tag or other, body length)",
+                    trace_module="Trace_C20", sigfn=V.default_sig,
+                    assumptions=["TLC/SANY and the JVM", "PmtTypes transcribes the code assignments listed in the property statement",
+                                 "maximum_bitrate inputs are below 2^21 and Dolby Vision levels below 32 (the property's stated ranges)",
+                                 "the PMT sections used for the by-PID query are built by the harness (their parsing is C06's subject)"])
